@@ -127,6 +127,9 @@ func c04Events(cfg c04Cfg, m c04Model, maxSess int) []c04Event {
 			evs = append(evs, c04Event{"close", i})
 		}
 	}
+	if cfg.Mode == "stateful" {
+		evs = append(evs, c04Event{"tick", -1}) // a minute passes: the expiry sweep runs; nobody has been idle for an hour
+	}
 	return evs
 }
 
@@ -203,6 +206,8 @@ func c04Step(cfg c04Cfg, m *c04Model, ev c04Event) c04Expect {
 		return c04Expect{Status: []int{404}, Header: "none"}
 	case "close":
 		m.Sess[ev.Ref].Stream = false
+		return c04Expect{}
+	case "tick":
 		return c04Expect{}
 	case "delete":
 		switch {
@@ -336,6 +341,10 @@ func (w *c04World) do(ev c04Event) c04Obs {
 		}
 		vsched.Quiesce()
 		return o
+	case "tick":
+		vsched.Sleep(61e9) // virtual time: the sweeper's one-minute ticker fires
+		vsched.Quiesce()
+		return c04Obs{}
 	case "close":
 		if x := w.streams[ev.Ref]; x != nil {
 			x.CloseFromClient()
